@@ -129,15 +129,25 @@ class C11Bounded(Bounded):
                 q_merge_list = b().convert(SigmaCollection.merge(parts))
                 parts = [SigmaCollection.from_dicts([copy.deepcopy(d)], collect_filters=True, resolve_references=False) for d in rdocs[:1] + fl[:2] + rdocs[1:] + fl[2:]]
                 q_merge_gen = b().convert(SigmaCollection.merge(p for p in parts))
+                import tempfile, shutil, os, yaml
+                tmpd = tempfile.mkdtemp(prefix="c11_files_")
+                try:
+                    for i, d in enumerate(rdocs[:1] + fl[:2] + rdocs[1:] + fl[2:]):      # one document per file: some files hold only a filter
+                        open(os.path.join(tmpd, f"{i:02d}.yml"), "w").write(yaml.safe_dump(d))
+                    q_files = b().convert(SigmaCollection.load_ruleset([tmpd]))
+                    q_files_hook = b().convert(SigmaCollection.load_ruleset([tmpd], on_load=lambda path, col: col))
+                finally:
+                    shutil.rmtree(tmpd, ignore_errors=True)
             except Exception as e:
                 fail("stacked-error", f"three filters in order {[f['title'] for f in fl]}: {type(e).__name__}: {e}", [list(fperm)])
                 continue
             want = ['a=1 and not u="adm" and not v="svc"', 'b=2 and not u="adm"', 'c=3 and not w="sys"']
             norm = lambda qs: [" and ".join(sorted(q.split(" and "))) for q in qs]
             for route, got in (("from_dicts", q_dicts), ("constructor", q_ctor), ("filters appended to collection.rules", q_append), ("merge of a list of collections", q_merge_list),
-                               ("merge of a generator of collections", q_merge_gen)):
-                if norm(got) != norm(want):
+                               ("merge of a generator of collections", q_merge_gen), ("load_ruleset of one file per document", q_files), ("load_ruleset with an identity on_load hook", q_files_hook)):
+                same = (sorted(norm(got)) == sorted(norm(want))) if route.startswith("load_ruleset") else (norm(got) == norm(want))      # the order of files is the loader's business
+                if not same:
                     fail("stacked:" + route, f"three filters in order {[f['title'] for f in fl]} via {route}: {got}, expected each rule narrowed by exactly the filters that target it: {want}", [list(fperm), route])
         return {"evaluations": ev, "distinct_nontrivial": nontriv, "failures": fails, "failure_counts": seen,
-                "bound": f"all orders of three filters through five routes; {len(rule_dets)} rule shapes x {len(filt_dets)} filter shapes x {len(logsources)} log source relations x {len(targets)} rule-list forms" + (" (every third)" if tier == "quick" else ""),
+                "bound": f"all orders of three filters through seven routes; {len(rule_dets)} rule shapes x {len(filt_dets)} filter shapes x {len(logsources)} log source relations x {len(targets)} rule-list forms" + (" (every third)" if tier == "quick" else ""),
                 "rule": "distinct (rule, filter, log sources, target); non-trivial = the filter applies", "samples": samples, "exhaustive": tier != "quick"}
